@@ -308,6 +308,11 @@ macro_rules! with_size {
             32 => $f::<32>($($args),*),
             64 => $f::<64>($($args),*),
             256 => $f::<256>($($args),*),
+            1024 => $f::<1024>($($args),*),
+            4096 => $f::<4096>($($args),*),
+            65536 => $f::<65536>($($args),*),
+            100000 => $f::<100000>($($args),*),
+            131072 => $f::<131072>($($args),*),
             _ => panic!("SIZE not monomorphised in the harness"),
         }
     };
